@@ -259,6 +259,43 @@ def check_props(pid, allow=()):
             "checks_pinned": len(re.findall(r"^Check\s", text, re.M))}
 
 
+STDLIB_AXIOMS_OK = {
+    # axioms declared by the standard library itself (Flocq's real-number development loads them); named in the trusted base
+    "Coq.Reals.ClassicalDedekindReals.sig_not_dec", "Coq.Reals.ClassicalDedekindReals.sig_forall_dec",
+    "Coq.Logic.FunctionalExtensionality.functional_extensionality_dep", "Coq.Logic.Classical_Prop.classic",
+}
+
+
+def coqchk_props(pid, timeout=3000):
+    """thorough tier: the independent checker coqchk re-checks props/<pid>.vo and everything it depends on; returns the context summary"""
+    rc, out, err, dt = run(["coqchk", "-silent", "-o"] + QFLAGS + [pid], cwd=COQ, timeout=timeout)
+    text = out + err
+    if rc != 0:
+        raise BrokenProof("coqchk rejects props/%s.vo or a dependency: %s" % (pid, text[-1500:]))
+    summary = {}
+    cur = None
+    for l in text.split("\n"):
+        m = re.match(r"^\* ([^:]+):\s*(.*)$", l)
+        if m:
+            cur = m.group(1).strip()
+            summary[cur] = [m.group(2).strip()] if m.group(2).strip() else []
+        elif cur and l.startswith("  ") and l.strip():
+            summary[cur].append(l.strip())
+    axioms = [a for a in summary.get("Axioms", []) if a != "<none>"]
+    names = set(re.sub(r"\s*:.*$", "", a) for a in axioms)
+    bad = sorted(names - STDLIB_AXIOMS_OK)
+    if bad:
+        raise BrokenProof("coqchk: axioms outside the standard library's own in the closure of props/%s.vo: %s" % (pid, bad))
+    for k in ("Constants/Inductives relying on type-in-type", "Constants/Inductives relying on unsafe (co)fixpoints",
+              "Inductives whose positivity is assumed"):
+        v = [x for x in summary.get(k, []) if x != "<none>"]
+        if v:
+            raise BrokenProof("coqchk: %s: %s" % (k, v[:5]))
+    if "Axioms" not in summary:
+        raise BrokenProof("coqchk printed no context summary for %s: %s" % (pid, text[-500:]))
+    return {"coqchk_axioms": sorted(names), "coqchk_seconds": round(dt, 1)}
+
+
 class BrokenProof(Exception):
     pass
 
